@@ -20,6 +20,7 @@ import core
 from ser import rat, q
 
 LEAN_MODULE = "Optyx.Props.C08b"
+EXTRA_MODULES = ["Optyx.Props.PinsC08"]   # transcription anchors (harness/source_pins.py)
 THEOREMS = [
     "Optyx.Props.C08.lp_end_to_end",
     "Optyx.Props.C08.lp_pipeline_faithful",
@@ -28,6 +29,7 @@ THEOREMS = [
     "Optyx.Props.Glue.lpGlue_text",
     "Optyx.Props.Glue.lpRows_table",
     "Optyx.Props.Glue.lpExtract_text",
+    "Optyx.Props.PinsC08.anchors",
 ]
 ASSUMPTIONS = [
     "scipy.optimize.linprog meets its documented contract on the data it is given (LinprogContract): the inside of HiGHS is trusted",
